@@ -555,8 +555,7 @@ public:
      */
     bool isConnectionBlocked(const ConnectionHandle &handle) const
     {
-        assert(handle.belongsTo(*this));
-        if (!m_impl) {
+        if (!m_impl || !handle.belongsTo(*this)) {
             throw std::out_of_range("Provided ConnectionHandle does not match any connection\nLikely the connection was deleted before!");
         }
 
